@@ -159,8 +159,9 @@ func (p *peer) handleStateTransition(i int, t stateTransition) {
 			localID := p.id
 			dominant := localID > remoteID ||
 				(localID == remoteID) && (p.config.LocalAS > p.config.RemoteAS)
-			if dominant && i == out {
-				// attempt to disable other FSM
+			if dominant == (i == out) {
+				// this FSM's connection was initiated by the dominant router
+				// and is the one to keep: attempt to disable other FSM
 				select {
 				case <-p.closeCh:
 					return
